@@ -683,7 +683,11 @@ const (
 // KeyLogEntry collects the secrets logged for one TLS connection (one client random).
 type KeyLogEntry struct {
 	ClientRandom string            // lower-case hex
-	Secrets      map[string][]byte // label -> secret
+	Secrets      map[string][]byte // label -> secret (the last one logged)
+	// All keeps every secret logged under a label: a client that is made to restart its
+	// handshake with the same ClientHello (Retry) can end up with two server-side connections
+	// that log different secrets under one client random.
+	All map[string][][]byte
 }
 
 // ParseKeyLog parses NSS key-log text; entries are returned in order of first appearance
@@ -705,9 +709,16 @@ func ParseKeyLog(text []byte) []KeyLogEntry {
 		if !ok {
 			i = len(out)
 			idx[cr] = i
-			out = append(out, KeyLogEntry{ClientRandom: cr, Secrets: map[string][]byte{}})
+			out = append(out, KeyLogEntry{ClientRandom: cr, Secrets: map[string][]byte{}, All: map[string][][]byte{}})
 		}
 		out[i].Secrets[f[0]] = sec
+		dup := false
+		for _, x := range out[i].All[f[0]] {
+			dup = dup || bytes.Equal(x, sec)
+		}
+		if !dup {
+			out[i].All[f[0]] = append(out[i].All[f[0]], sec)
+		}
 	}
 	return out
 }
